@@ -1,10 +1,11 @@
 ------------------------------ MODULE LogMutate ------------------------------
 (***************************************************************************)
 (* Generator (G) for C11: all single mutations of a recorded optimization    *)
-(* log.  Input (JSON, env LOG): [entries |-> Seq([name, blk, ids]), extra |->*)
-(* Seq(id), first, last] - the log written by a run, one entry per optimized *)
-(* sub-block (blk = the basic block it belongs to), and the range of entries *)
-(* to mutate.  Per entry e in first..last and position i of its id list:     *)
+(* log.  Input (JSON, env LOG): [logs |-> Seq([entries |-> Seq([name, blk,   *)
+(* ids]), first, last]), extra |-> Seq(id)] - the logs written by runs, one  *)
+(* entry per optimized sub-block (blk = the basic block it belongs to), and  *)
+(* the range of entries to mutate.  Per log l, entry e in first..last and    *)
+(* position i of its id list:                                                *)
 (*   subst   ids[i] replaced by every other id of the same block and by      *)
 (*           every id of other blocks (foreign) and by the extra ids         *)
 (*   delete  ids[i] removed          dup     ids[i] repeated                 *)
@@ -14,43 +15,43 @@
 (* as not optimized), empty (empty id list), moveto (the id list is filed    *)
 (* under another entry's name and vice versa: reordered log), truncate (only *)
 (* the first e - 1 entries are kept).  Every reachable initial state is one  *)
-(* mutant, printed as <<"M", e, kind, i, id, e2, new id list>>; the harness  *)
+(* mutant, printed as <<"M", l, e, kind, i, id, e2, new id list>>; the harness*)
 (* writes the log with entry e replaced accordingly and replays it.          *)
 (***************************************************************************)
 EXTENDS Naturals, Sequences, FiniteSets, Json, IOUtils, TLC
 
-In      == JsonDeserialize(IOEnv.LOG)
-Entries == In.entries
-N       == Len(Entries)
+In == JsonDeserialize(IOEnv.LOG)       \* [logs |-> Seq([entries, first, last]), extra |-> Seq(id)]
 
 VARIABLE m
 
-Rng(f)      == {f[i] : i \in DOMAIN f}
-SameBlock(e) == UNION {Rng(Entries[x].ids) : x \in {y \in 1..N : Entries[y].blk = Entries[e].blk}}
-Foreign(e)   == UNION {Rng(Entries[x].ids) : x \in {y \in 1..N : Entries[y].blk # Entries[e].blk}}
-Pool(e)      == SameBlock(e) \cup Foreign(e) \cup Rng(In.extra)
+Rng(f) == {f[i] : i \in DOMAIN f}
+Ent(l) == In.logs[l].entries
+SameBlock(l, e) == UNION {Rng(Ent(l)[x].ids) : x \in {y \in 1..Len(Ent(l)) : Ent(l)[y].blk = Ent(l)[e].blk}}
+Foreign(l, e)   == UNION {Rng(Ent(l)[x].ids) : x \in {y \in 1..Len(Ent(l)) : Ent(l)[y].blk # Ent(l)[e].blk}}
+Pool(l, e)      == SameBlock(l, e) \cup Foreign(l, e) \cup Rng(In.extra)
 
-Without(s, i)   == SubSeq(s, 1, i - 1) \o SubSeq(s, i + 1, Len(s))
+Without(s, i)     == SubSeq(s, 1, i - 1) \o SubSeq(s, i + 1, Len(s))
 InsertAt(s, i, x) == SubSeq(s, 1, i - 1) \o <<x>> \o SubSeq(s, i, Len(s))
 
-Mutants(e) ==
-  LET ids == Entries[e].ids  L == Len(ids) IN
-       {[e |-> e, kind |-> "subst", i |-> i, id |-> x, e2 |-> 0, ids |-> [ids EXCEPT ![i] = x]] : i \in 1..L, x \in Pool(e)}
-  \cup {[e |-> e, kind |-> "delete", i |-> i, id |-> "", e2 |-> 0, ids |-> Without(ids, i)] : i \in 1..L}
-  \cup {[e |-> e, kind |-> "dup", i |-> i, id |-> "", e2 |-> 0, ids |-> InsertAt(ids, i, ids[i])] : i \in 1..L}
-  \cup {[e |-> e, kind |-> "swap", i |-> i, id |-> "", e2 |-> 0, ids |-> [ids EXCEPT ![i] = ids[i + 1], ![i + 1] = ids[i]]] : i \in 1..(L - 1)}
-  \cup {[e |-> e, kind |-> "insert", i |-> i, id |-> x, e2 |-> 0, ids |-> InsertAt(ids, i, x)] : i \in 1..(L + 1), x \in Pool(e)}
-  \cup {[e |-> e, kind |-> "dropentry", i |-> 0, id |-> "", e2 |-> 0, ids |-> <<>>],
-        [e |-> e, kind |-> "empty", i |-> 0, id |-> "", e2 |-> 0, ids |-> <<>>],
-        [e |-> e, kind |-> "truncate", i |-> 0, id |-> "", e2 |-> 0, ids |-> <<>>]}
-  \cup {[e |-> e, kind |-> "moveto", i |-> 0, id |-> "", e2 |-> x, ids |-> Entries[x].ids] : x \in (1..N) \ {e}}
+Mutants(l, e) ==
+  LET ids == Ent(l)[e].ids  L == Len(ids) IN
+       {[l |-> l, e |-> e, kind |-> "subst", i |-> i, id |-> x, e2 |-> 0, ids |-> [ids EXCEPT ![i] = x]] : i \in 1..L, x \in Pool(l, e)}
+  \cup {[l |-> l, e |-> e, kind |-> "delete", i |-> i, id |-> "", e2 |-> 0, ids |-> Without(ids, i)] : i \in 1..L}
+  \cup {[l |-> l, e |-> e, kind |-> "dup", i |-> i, id |-> "", e2 |-> 0, ids |-> InsertAt(ids, i, ids[i])] : i \in 1..L}
+  \cup {[l |-> l, e |-> e, kind |-> "swap", i |-> i, id |-> "", e2 |-> 0, ids |-> [ids EXCEPT ![i] = ids[i + 1], ![i + 1] = ids[i]]] : i \in 1..(L - 1)}
+  \cup {[l |-> l, e |-> e, kind |-> "insert", i |-> i, id |-> x, e2 |-> 0, ids |-> InsertAt(ids, i, x)] : i \in 1..(L + 1), x \in Pool(l, e)}
+  \cup {[l |-> l, e |-> e, kind |-> "dropentry", i |-> 0, id |-> "", e2 |-> 0, ids |-> <<>>],
+        [l |-> l, e |-> e, kind |-> "empty", i |-> 0, id |-> "", e2 |-> 0, ids |-> <<>>],
+        [l |-> l, e |-> e, kind |-> "truncate", i |-> 0, id |-> "", e2 |-> 0, ids |-> <<>>]}
+  \cup {[l |-> l, e |-> e, kind |-> "moveto", i |-> 0, id |-> "", e2 |-> x, ids |-> Ent(l)[x].ids] : x \in (1..Len(Ent(l))) \ {e}}
 
 \* a mutation that leaves the entry as it was is not a mutant
-Changed(x) == x.kind \in {"dropentry", "empty", "truncate"} \/ x.ids # Entries[x.e].ids
+Changed(x) == x.kind \in {"dropentry", "empty", "truncate"} \/ x.ids # Ent(x.l)[x.e].ids
 
-Init == m \in {x \in UNION {Mutants(e) : e \in In.first..(IF In.last < N THEN In.last ELSE N)} : Changed(x)}
+Range(l) == In.logs[l].first..(IF In.logs[l].last < Len(Ent(l)) THEN In.logs[l].last ELSE Len(Ent(l)))
+Init == m \in {x \in UNION {UNION {Mutants(l, e) : e \in Range(l)} : l \in 1..Len(In.logs)} : Changed(x)}
 Next == UNCHANGED m
 Spec == Init /\ [][Next]_m
 
-Emit == PrintT(<<"M", m.e, m.kind, m.i, m.id, m.e2, m.ids>>)
+Emit == PrintT(<<"M", m.l, m.e, m.kind, m.i, m.id, m.e2, m.ids>>)
 =============================================================================
